@@ -373,7 +373,11 @@ impl Emf {
     /// contents. It's recommended to only enable all validations in debug builds. This is exactly what
     /// [`Emf::builder`] does.
     pub fn all_validations(namespace: String, default_dimensions: Vec<Vec<String>>) -> Self {
-        Self::builder(namespace, default_dimensions).build()
+        let mut builder = Self::builder(namespace, default_dimensions);
+        // `builder()` defaults to skipping validations when debug assertions are disabled;
+        // this constructor promises all of them in every build profile
+        builder.validation = Validation::default();
+        builder.build()
     }
 
     /// Turn off all optional validations for the Emf format
